@@ -335,7 +335,10 @@ class World(object):
             import logging
             print("OUT<%s:%s>" % (sid, src))
             sys.stderr.write("ERR<%s:%s>\n" % (sid, src))
-            logging.getLogger("harness").warning("LOG<%s:%s>", sid, src)
+            if self.opts.get("log_markers_at_info"):
+                logging.getLogger("harness").info("LOG<%s:%s>", sid, src)
+            else:
+                logging.getLogger("harness").warning("LOG<%s:%s>", sid, src)
             if self.opts.get("log_volume"):
                 # chatty step: many more records after the marker (the per-scenario log buffer must keep all of them)
                 nfill = self.sx.choice("log_volume", list(self.opts["log_volume"]))
